@@ -1,6 +1,6 @@
 (* C20 -- callback filters deliver what they promise over every value sequence. *)
 From Coq Require Import ZArith NArith List Bool.
-From PV Require Import Model.Filters.
+From PV Require Import Model.Filters Model.FiltersOverlap.
 Import ListNotations.
 Open Scope Z_scope.
 
@@ -117,3 +117,11 @@ Definition C20_chain_statement : Prop :=
     let delivered := flat_map (fun p => match snd p with Some y => [(fst (fst p), y)] | None => [] end) (combine calls o1) in
     flat_map (fun o => match o with Some y => [y] | None => [] end) (frun2 k1 k2 (finit k1 t0) (finit k2 t0) calls) =
     flat_map (fun o => match o with Some y => [y] | None => [] end) (fst (frun k2 (finit k2 t0) delivered)).
+
+(* overlapping calls (a slow callback, further calls while it runs): what is delivered at each call, and the state the filter is
+   left in, are those of the same calls made one after the other -- whenever and in whatever order the callbacks return *)
+Definition C20_overlap_statement : Prop :=
+  forall k t0 evs,
+    let r := orun false k (mkO (finit k t0) []) evs in
+    let q := frun k (finit k t0) (calls_of evs) in
+    fst r = fst q /\ o_f (snd r) = snd q.
